@@ -14,7 +14,7 @@ theorem Time.offset_spec (t : Time) (h : t.wf = true) :
 
 /-! ## Checked sums -/
 
-theorem safeAdd_ok (a b : Int) (ha : inRange a = true) (hb : inRange b = true)
+theorem safeAdd_ok_of_inRange (a b : Int) (ha : inRange a = true) (hb : inRange b = true)
     (hab : inRange (a + b) = true) : safeAdd a b = .ok (a + b) := by
   simp [safeAdd, ha, hb, hab]
 
@@ -30,7 +30,7 @@ theorem foldl_safeAdd_ok (xs : List Int) :
     have h1 : inRange (a + x) = true := by
       have := h 1
       simpa using this
-    have hs : safeAdd a x = .ok (a + x) := safeAdd_ok a x ha (hx x (by simp)) h1
+    have hs : safeAdd a x = .ok (a + x) := safeAdd_ok_of_inRange a x ha (hx x (by simp)) h1
     have hb : (Res.ok a).bind (fun a => safeAdd a x) = Res.ok (a + x) := hs
     rw [List.foldl_cons, hb, ih (a + x) h1]
     · simp [Int.add_assoc]
@@ -86,7 +86,7 @@ theorem inRange_neg (s : Int) (hs : inRange s = true) : inRange (-s) = true := b
 theorem diffRes_eq (s t : Int) (hs : inRange s = true) (ht : inRange t = true)
     (hd : inRange (t - s) = true) : diffRes s t = .ok (t - s) := by
   unfold diffRes
-  rw [safeAdd_ok t (-s) ht (inRange_neg s hs) (by simpa [Int.sub_eq_add_neg] using hd)]
+  rw [safeAdd_ok_of_inRange t (-s) ht (inRange_neg s hs) (by simpa [Int.sub_eq_add_neg] using hd)]
   simp [Int.sub_eq_add_neg]
 
 /-! ## Closing one open range -/
